@@ -1491,7 +1491,8 @@ int __wrap(pthread_spin_trylock)(pthread_spinlock_t *lock) {
   int ret;
   (void)_;
   if (myth_should_wrap_pthread()) {
-    ret = myth_spin_trylock_body((myth_spinlock_t *)lock);
+    /* myth_spin_trylock_body returns 1 when it got the lock, 0 otherwise */
+    ret = (myth_spin_trylock_body((myth_spinlock_t *)lock) ? 0 : EBUSY);
   } else {
     ret = real_pthread_spin_trylock(lock);
   }
